@@ -85,7 +85,12 @@ def run(names, tier):
                 viol = [l for l in out.splitlines() if l.startswith('VIOLATION')]
                 keys = sorted({l.split('key=')[1].split(' ')[0] for l in viol if 'key=' in l})
                 summ = [l for l in out.splitlines() if l.startswith('SUMMARY')]
-                entry[chk] = dict(status='caught' if viol else 'missed', keys=keys[:6], summary=summ[-1] if summ else out[-200:])
+                status = 'caught' if viol else 'missed'
+                if not viol and md.get('neutralised'):
+                    status = 'neutralised (no longer breaks the property, see meta.json)'
+                if not viol and md.get('judgement'):
+                    status = 'outside the statement (see meta.json)'
+                entry[chk] = dict(status=status, keys=keys[:6], summary=summ[-1] if summ else out[-200:])
                 print(name, chk, tier, entry[chk]['status'].upper(), keys[:3])
             results.setdefault(name, {})[tier] = entry
         finally:
